@@ -101,29 +101,34 @@ def expected(c):
     return res
 
 
-def judge(c, ans):
-    """compares the implementation's outputs with the property text; returns list of messages"""
+def judge_cat(c, ans):
+    """compares the implementation's outputs with the property text; returns [(category, message)] with category
+    "missing" (no output although specified), "spurious" (output although not specified), "fields" (wrong events)"""
     if "panic" in ans:
-        return ["implementation panicked: " + ans["panic"]]
+        return [("panic", "implementation panicked: " + ans["panic"])]
     msgs = []
     exp = expected(c)
     for i, (e, o) in enumerate(zip(exp, ans["outs"])):
         op = c["ops"][i]
         what = "arrival %d (%s key v%s t=%d)" % (i, name(op[0]), key_of(c, op), op[2])
         if e is None and o is not None:
-            msgs.append("%s: a joined output was produced although not every source has a same-key event within the window" % what)
+            msgs.append(("spurious", "%s: a joined output was produced although not every source has a same-key event within the window" % what))
         elif e is not None and o is None:
-            msgs.append("%s: no joined output although every source has a same-key event within the window (arrivals %s)" % (what, sorted(e.values())))
+            msgs.append(("missing", "%s: no joined output although every source has a same-key event within the window (arrivals %s)" % (what, sorted(e.values()))))
         elif e is not None:
             got = {k: v for k, v in o["fields"]}
             for s, j in e.items():
                 for f, v in c["ops"][j][3]:
                     g = got.get("%s.f%d" % (name(s), f))
                     if g != {"s": "v%d" % v}:
-                        msgs.append("%s: field %s.f%d is %s, but the most recently arrived in-window event of %s is arrival %d with v%d" % (
-                            what, name(s), f, json.dumps(g), name(s), j, v))
+                        msgs.append(("fields", "%s: field %s.f%d is %s, but the most recently arrived in-window event of %s is arrival %d with v%d" % (
+                            what, name(s), f, json.dumps(g), name(s), j, v)))
                         break
     return msgs
+
+
+def judge(c, ans):
+    return [m for _, m in judge_cat(c, ans)]
 
 
 def is_sorted(c):
@@ -268,21 +273,25 @@ def engine_choice(c, ans):
     return res
 
 
-def judge_engine(c, ans):
+def judge_engine_cat(c, ans):
     if "error" in ans or "panic" in ans:
-        return ["engine: " + json.dumps(ans)[:300]]
+        return [("panic", "engine: " + json.dumps(ans)[:300])]
     msgs = []
     got = engine_choice(c, ans)
     for i, (e, g) in enumerate(zip(expected(c), got)):
         op = c["ops"][i]
         what = "arrival %d (%s key v%s t=%d)" % (i, name(op[0]), key_of(c, op), op[2])
         if e is None and g is not None:
-            msgs.append("%s: the join program emitted %s although not every source has a same-key event within the window" % (what, g))
+            msgs.append(("spurious", "%s: the join program emitted %s although not every source has a same-key event within the window" % (what, g)))
         elif e is not None and g is None:
-            msgs.append("%s: the join program emitted nothing although every source has a same-key event within the window (arrivals %s)" % (what, sorted(e.values())))
+            msgs.append(("missing", "%s: the join program emitted nothing although every source has a same-key event within the window (arrivals %s)" % (what, sorted(e.values()))))
         elif e is not None and g != e:
-            msgs.append("%s: the join program's output carries arrivals %s, the most recently arrived in-window events are %s" % (what, g, e))
+            msgs.append(("fields", "%s: the join program's output carries arrivals %s, the most recently arrived in-window events are %s" % (what, g, e)))
     return msgs
+
+
+def judge_engine(c, ans):
+    return [m for _, m in judge_engine_cat(c, ans)]
 
 
 def model_choice(c, mrun):
